@@ -179,7 +179,7 @@ package jsonpatch
 //@   ensures[C06] unchanged: !result ==> n.which == old(n.which)
 //@   ensures[C01,C06] raw-kept: n.raw == old(n.raw)
 
-//@ ginv raw-consts: bytes(rawJSONNull) == nullText && rawJSONNull != nil && allocated(rawJSONNull) && wf(bytes(rawJSONArray)) && kind(val(bytes(rawJSONArray))) == KArr && jlen(val(bytes(rawJSONArray))) == 0 && nows(bytes(rawJSONArray)) && wf(bytes(rawJSONObject)) && kind(val(bytes(rawJSONObject))) == KObj && jlen(val(bytes(rawJSONObject))) == 0 && nows(bytes(rawJSONObject))
+//@ ginv raw-consts: bytes(rawJSONNull) == nullText && rawJSONNull != nil && allocated(rawJSONNull) && allocated(rawJSONArray) && allocated(rawJSONObject) && wf(bytes(rawJSONArray)) && kind(val(bytes(rawJSONArray))) == KArr && jlen(val(bytes(rawJSONArray))) == 0 && nows(bytes(rawJSONArray)) && wf(bytes(rawJSONObject)) && kind(val(bytes(rawJSONObject))) == KObj && jlen(val(bytes(rawJSONObject))) == 0 && nows(bytes(rawJSONObject))
 
 //@ func (*lazyNode).nextByte
 //@   requires node: n != nil && n.raw != nil && wf(*n.raw)
@@ -341,6 +341,7 @@ package jsonpatch
 //@   ensures[C01] nil: src == nil ==> result.0 == nil && result.1 == 0 && result.2 == nil
 //@   ensures[C01,C09] fresh-copy: src != nil && result.2 == nil ==> result.0 != nil && fresh(result.0) && result.0.which == eRaw && result.0.doc == nil && result.0.ary == nil && result.0.raw != nil && fresh(result.0.raw) && fresh(*result.0.raw) && wf(*result.0.raw) && nows(*result.0.raw)
 //@   ensures[C12] size: src != nil && result.2 == nil ==> result.1 == len(*result.0.raw) && result.1 >= 0
+//@   ensures[C04,C12] size-bound: 0 <= result.1 && result.1 <= 72057594037927936
 //@   ensures[C08] attrs: !isTestFailed(result.2) && !isMissing(result.2) && !isCopyLimit(result.2) && !isInvalidIndex(result.2)
 //@   ensures[C01] nil-on-error: result.2 != nil ==> result.0 == nil
 
@@ -357,6 +358,7 @@ package jsonpatch
 //@   ensures[C01,C05] docs-untouched: forall d *partialDoc {d.obj} {d.keys} :: old(allocated(d) && d.obj != nil) ==> d.obj == old(d.obj) && d.keys == old(d.keys)
 //@   ensures[C01,C05] arrays-untouched: forall a *partialArray {a.nodes} :: old(allocated(a) && a.nodes != nil) ==> a.nodes == old(a.nodes)
 //@   ensures[C04] root-ok: conOK(*pd)
+//@   ensures[C01,C04] children-stable: forall c *lazyNode {c.which} :: old(childOK(c)) ==> childOK(c)
 //@   ensures[C01] root-kept: *pd == old(*pd)
 //@   ensures[C01] whole-document: path == "" ==> result.0 == old(*pd) && result.1 == ""
 //@   ensures[C01,C08] nil-key: result.0 == nil ==> result.1 == ""
@@ -365,6 +367,7 @@ package jsonpatch
 //@   ensures[C01] needs-slash: path != "" && ntok(path) < 2 ==> result.0 == nil
 //@   loop 1
 //@   invariant container: conOK(doc) && conOK(*pd) && *pd == old(*pd)
+//@   invariant children-stable: forall c *lazyNode {c.which} :: old(childOK(c)) ==> childOK(c)
 //@   invariant parsed-untouched: forall m *lazyNode {m.which} {m.doc} {m.ary} :: (old(allocated(m) && m.which == eDoc) ==> m.which == eDoc && m.doc == old(m.doc)) && (old(allocated(m) && m.which == eAry) ==> m.which == eAry && m.ary == old(m.ary))
 //@   invariant docs-untouched: forall d *partialDoc {d.obj} {d.keys} :: old(allocated(d) && d.obj != nil) ==> d.obj == old(d.obj) && d.keys == old(d.keys)
 //@   invariant arrays-untouched: forall a *partialArray {a.nodes} :: old(allocated(a) && a.nodes != nil) ==> a.nodes == old(a.nodes)
@@ -445,3 +448,18 @@ package jsonpatch
 
 //@ func Equal
 //@   ensures[C06,C16] ill-formed: !wf(a) || !wf(b) ==> !result
+
+// ---- EnsurePathExistsOnAdd (C14) ----
+
+//@ func ensurePathExists
+//@   requires args: pd != nil && options != nil && conOK(*pd)
+//@   modifies region(lazyNode.which), region(lazyNode.doc), region(lazyNode.ary), region(partialDoc.obj), region(partialDoc.keys), region(partialDoc.opts), region(partialArray.nodes), region(elem string), region(elem *lazyNode), region(map map[string]*lazyNode)
+//@   ensures[C01] root-kept: *pd == old(*pd)
+//@   ensures[C04] root-ok: conOK(*pd)
+//@   ensures[C08] attrs: !isTestFailed(err) && !isCopyLimit(err) && !isMissing(err)
+//@   loop 1
+//@   invariant container: conOK(doc) && conOK(*pd) && *pd == old(*pd)
+//@   loop 2
+//@   invariant container: conOK(doc) && conOK(*pd) && *pd == old(*pd)
+//@   loop 3
+//@   invariant container: conOK(doc) && conOK(*pd) && *pd == old(*pd)
